@@ -369,9 +369,9 @@ func TestVerifC09Udp(t *testing.T) {
 	defer st.Close()
 	stat := NewVStats()
 	r := NewVRand(VSeed())
-	hist := 400
+	hist := 3000
 	if VThorough() {
-		hist = 6000
+		hist = 30000
 	}
 	for h := 0; h < hist; h++ {
 		w := newC09UdpWorld(st, stat)
@@ -461,8 +461,14 @@ func newC09FwdWorld(n int) *c09FwdWorld {
 
 func (w *c09FwdWorld) obs(pc string) string {
 	_, in := w.c.dnsForwarderCache.Load(w.key)
-	return fmt.Sprintf("pc=%s if=%d ret=%s cl=%d ic=%s bad=%d", pc, w.entry.inFlight.Load(), c09B(w.entry.retired.Load()),
-		w.fwd.closed.Load(), c09B(in), w.fwd.afterClose.Load())
+	nb := 0
+	for _, b := range w.busy {
+		if b {
+			nb++
+		}
+	}
+	return fmt.Sprintf("pc=%s if=%d ret=%s cl=%d ic=%s bad=%d busy=%d", pc, w.entry.inFlight.Load(), c09B(w.entry.retired.Load()),
+		w.fwd.closed.Load(), c09B(in), w.fwd.afterClose.Load(), nb)
 }
 
 func TestVerifC09Fwd(t *testing.T) {
@@ -470,9 +476,9 @@ func TestVerifC09Fwd(t *testing.T) {
 	defer st.Close()
 	stat := NewVStats()
 	r := NewVRand(VSeed() + 11)
-	hist := 600
+	hist := 4000
 	if VThorough() {
-		hist = 8000
+		hist = 40000
 	}
 	for h := 0; h < hist; h++ {
 		n := 1 + r.Intn(4)
@@ -493,9 +499,9 @@ func TestVerifC09Fwd(t *testing.T) {
 					continue
 				}
 				stat.Inc("fwd.op.end")
+				w.busy[tt] = false
 				st.Emit(fmt.Sprintf("F call end %d", tt), w.obs("e1"))
 				out := VRecover(func() string { w.entry.endUse(); return w.obs("idle") })
-				w.busy[tt] = false
 				st.Emit(fmt.Sprintf("F finish %d", tt), out)
 				continue
 			}
@@ -538,9 +544,9 @@ func TestVerifC09Fwd(t *testing.T) {
 		// drain: everybody ends; then the entry must be closed iff it was retired
 		for tt := range w.busy {
 			if w.busy[tt] {
+				w.busy[tt] = false
 				st.Emit(fmt.Sprintf("F call end %d", tt), w.obs("e1"))
 				out := VRecover(func() string { w.entry.endUse(); return w.obs("idle") })
-				w.busy[tt] = false
 				st.Emit(fmt.Sprintf("F finish %d", tt), out)
 			}
 		}
@@ -1227,9 +1233,9 @@ func TestVerifC09Ctl(t *testing.T) {
 	stat := NewVStats()
 	r := NewVRand(VSeed() + 29)
 	routing := c09Routing()
-	n := 250
+	n := 2000
 	if VThorough() {
-		n = 4000
+		n = 20000
 	}
 	for i := 0; i < n; i++ {
 		rr := r.Fork()
